@@ -1185,6 +1185,9 @@ fn read_code<C: CodeVisitor>(
 	if let Some(table) = line_number_table {
 		code_visitor.visit_line_numbers(table)?;
 	}
+	if let Some(table) = local_variable_table {
+		code_visitor.visit_local_variables(table)?;
+	}
 
 	Ok(code_visitor)
 }
